@@ -76,6 +76,8 @@ func rulesC17(c *Ctx) {
 	R := c.R
 	R.Rule("R1", "Melt / melt-quote poll custody table", 14)
 	R.Rule("R2", "Send, swap-to-send, receive, mint, reclaim custody ordering", 9)
+	R.Rule("R9", "the wallet reads a mint's answer completely: the network layer does not cap response bodies", 1)
+	c.c17ClientReadsWholeBody()
 	R.Rule("R8", "melt reconciliation is complete: for every melt quote not yet recorded PAID a PAID answer removes its pending record and an UNPAID answer gives its pending proofs back", 2)
 	c.c17ReconcileComplete()
 	R.Rule("R3", "balances are whole-bucket sums", 3)
@@ -119,6 +121,22 @@ func (c *Ctx) c17Melt() {
 	R.Check("R1", fk, "pending record holds the selected proofs for this quote", c.P.InstrPos(addP[0]), okSel && strings.HasSuffix(quoteID, ".QuoteId"), "the proofs taken out of the spendable bucket are recorded as pending under the quote", short(sel.String(), 120))
 	ok, why := o.Requires(post, errNilOf(addP[0], "selected proofs recorded as pending"))
 	R.Check("R1", fk, "melt request <= proofs recorded as pending", c.P.InstrPos(post), ok, "the proofs are sent only after they were recorded as pending", why)
+	// the selection has already taken the proofs out of the spendable bucket: nothing that can fail (or
+	// return) lies between its success and the pending record - otherwise the proofs are in no bucket
+	if okSel && sel.Call != nil && sel.Call.Parent() == f {
+		cutW := NewCut()
+		cutW.Barriers[addP[0]] = true
+		okW, whyW := true, ""
+		for e := range o.AcceptEdges(errNilOf(sel.Call, "selection succeeded")) {
+			for _, r := range Returns(f) {
+				if reach, path := Reach(Point{e.To(), 0}, PointOf(r), cutW); reach {
+					okW = false
+					whyW = "return at " + c.P.InstrPos(r) + " reachable after the selection and before the pending record: " + c.P.PathString(path)
+				}
+			}
+		}
+		R.Check("R1", fk, "no exit between selection and pending record", c.P.InstrPos(addP[0]), okW, "once proofs were selected (deleted from the spendable bucket) the next thing the operation can do is record them as pending", whyW)
+	}
 	// the request carries those proofs
 	req := o.Of(c.P.Describe(post).Args[1])
 	in := project(req, "Inputs")
@@ -1092,4 +1110,42 @@ func (c *Ctx) c18SendSplit() {
 	if n == 0 {
 		R.Check("R2", fk, "send outputs = split(amount) ++ split(fee budget)", c.P.Pos(f.Pos()), false, "the send outputs are derived from the split of the amount", "no output derivation over split(amount) found")
 	}
+}
+
+// c17ClientReadsWholeBody: R9. A response to a request that the mint has already acted on (signatures issued,
+// inputs spent) must not be thrown away because of its size: wallet/client decodes the complete body. Any
+// io.LimitReader / http.MaxBytesReader / LimitedReader in that package caps it - the encoder side (the mint)
+// has no cap, a large mint or swap answer would be cut and the operation treated as failed.
+func (c *Ctx) c17ClientReadsWholeBody() {
+	R := c.R
+	var caps []string
+	n := 0
+	for _, f := range c.P.Funcs {
+		top := EnclosingTop(f)
+		if top.Pkg == nil || c.P.Rel(top.Pkg.Pkg.Path()) != "wallet/client" {
+			continue
+		}
+		for _, ci := range Calls(f) {
+			d := c.P.Describe(ci)
+			switch d.Name {
+			case "io.LimitReader", "net/http.MaxBytesReader", "io.(*LimitedReader).Read":
+				caps = append(caps, d.Name+" at "+c.P.InstrPos(ci))
+			case "io.ReadAll", "encoding/json.(*Decoder).Decode":
+				n++
+			}
+		}
+		for _, b := range f.Blocks {
+			for _, in := range b.Instrs {
+				if al, ok := in.(*ssa.Alloc); ok && strings.HasSuffix(al.Type().String(), "io.LimitedReader") {
+					caps = append(caps, "io.LimitedReader at "+c.P.InstrPos(al))
+				}
+			}
+		}
+	}
+	if n == 0 {
+		R.Unresolved("R9", "response reading in wallet/client", "no io.ReadAll / json Decoder found")
+		return
+	}
+	R.Check("R9", "wallet/client", "response bodies are read without a size cap", "wallet/client/client.go", len(caps) == 0,
+		"the client decodes the mint's complete answer", strings.Join(caps, "; "))
 }
